@@ -202,7 +202,9 @@ Variable atom_truth : atom -> bool.
 Variable hash : nat -> list name -> Z.       (* 0 sha256, 1 sha1, 2 md5: first 7 hex digits *)
 
 Inductive pv := PNone | PAtom (a : atom) | PDict (d : list (atom * atom)).
-Inductive sval := SObj (v : pv) | SC (c : cv).
+(* SDangling: a C pointer attribute that was pointed into the buffer of a state item (char* from a
+   bytes object owned by the state tuple only): undefined content once the state is released *)
+Inductive sval := SObj (v : pv) | SC (c : cv) | SDangling.
 
 Record pytype := { t_hier : hierarchy; t_pydict : bool (* Python subclass with __dict__ *) }.
 
@@ -235,6 +237,7 @@ Inductive err :=
 | ENoDict                                    (* AttributeError: object has no __dict__ *)
 | EDictUpdate                                (* dict.update(non-mapping) *)
 | EAttr (n : name)                           (* object lacks a member slot (ill-formed object) *)
+| EUB                                        (* reads through a dangling pointer: undefined *)
 | EOther.                                    (* outside the model: user methods, CPython default *)
 
 Inductive res (A : Type) := Ok (a : A) | Err (e : err).
@@ -246,7 +249,11 @@ Definition accepted (avail : list nat) (f : flags) (ns : list name) : option (li
 
 (* --- __reduce_cython__ --- *)
 Definition item_of (m : member) (v : sval) : pv :=
-  match v with SObj p => p | SC c => PAtom (to_py (m_kind m) c) end.
+  match v with
+  | SObj p => p
+  | SC c => PAtom (to_py (m_kind m) c)
+  | SDangling => PNone      (* never used: read_state stops with EUB *)
+  end.
 
 Fixpoint read_state (ms : list member) (o : obj) : res (list pv) :=
   match ms with
@@ -254,6 +261,7 @@ Fixpoint read_state (ms : list member) (o : obj) : res (list pv) :=
   | m :: r =>
       match get (o_slots o) (m_name m) with
       | None => Err (EAttr (m_name m))
+      | Some SDangling => Err EUB
       | Some v => match read_state r o with
                   | Ok l => Ok (item_of m v :: l)
                   | Err e => Err e
@@ -301,6 +309,11 @@ Definition reduce (f : flags) (e : modenv) (o : obj) : res rvalue :=
 Definition conv_in (m : member) (p : pv) : option sval :=
   match m_kind m with
   | KObj => Some (SObj p)
+  | KC _ _ true =>
+      match p with
+      | PAtom a => match from_py (m_kind m) a with Some _ => Some SDangling | None => None end
+      | _ => None
+      end
   | k => match p with
          | PAtom a => match from_py k a with Some c => Some (SC c) | None => None end
          | _ => None            (* None / dict are not convertible to a C value *)
@@ -403,3 +416,4 @@ Arguments PAtom {atom} a.
 Arguments PDict {atom} d.
 Arguments SObj {atom cv} v.
 Arguments SC {atom cv} c.
+Arguments SDangling {atom cv}.
